@@ -342,7 +342,7 @@ func runC11(c *Ctx) {
 	}
 
 	// ---- R3 ----
-	c11Globals(c)
+	c11Globals(c, "C11-R3")
 
 	// ---- R4 ----
 	checkGuards(c, "C11-R4", []GuardSpec{
@@ -402,14 +402,14 @@ func runC11(c *Ctx) {
 
 // c11Globals: functions reachable from the workers must not store to
 // package-level variables.
-func c11Globals(c *Ctx) {
+func c11Globals(c *Ctx, R string) {
 	p := c.P
 	// roots: scanWorker and every Check method of RuleChecker implementers
 	var roots []*FuncInfo
-	if sw := c.MustFunc("C11-R3", "cmd/pint.scanWorker"); sw != nil {
+	if sw := c.MustFunc(R, "cmd/pint.scanWorker"); sw != nil {
 		roots = append(roots, sw)
 	}
-	for _, tn := range checkerTypes(c, "C11-R3") {
+	for _, tn := range checkerTypes(c, R) {
 		if m := p.methodOn(typeQName(tn.Type()), "Check"); m != nil {
 			roots = append(roots, m)
 		}
@@ -505,7 +505,7 @@ func c11Globals(c *Ctx) {
 			for _, l := range lhs {
 				if v := isPkgVar(l); v != nil {
 					nStores++
-					c.Bad("C11-R3", "store to package variable "+relPkg(v.Pkg().Path())+"."+v.Name()+" in "+fi.Name, n.Pos(), "a function reachable from the check workers writes a package-level variable without synchronisation (result depends on scheduling)")
+					c.Bad(R, "store to package variable "+relPkg(v.Pkg().Path())+"."+v.Name()+" in "+fi.Name, n.Pos(), "a function reachable from the check workers writes a package-level variable without synchronisation (result depends on scheduling)")
 				}
 			}
 			return true
@@ -707,16 +707,16 @@ func c11Globals(c *Ctx) {
 				if crossed > 0 {
 					why = "through an element or pointer field that can be shared with the original"
 				}
-				c.Bad("C11-R3", "store into shared "+sharedField+" in "+fi.Name, n.Pos(), "a function reachable from the check workers writes into the parsed rule / PromQL AST "+why+": that state is shared by every check of the rule (and of its group), so later or concurrent checks see the modification and results depend on scheduling")
+				c.Bad(R, "store into shared "+sharedField+" in "+fi.Name, n.Pos(), "a function reachable from the check workers writes into the parsed rule / PromQL AST "+why+": that state is shared by every check of the rule (and of its group), so later or concurrent checks see the modification and results depend on scheduling")
 			}
 			return true
 		})
 	}
-	c.Check(nShared == 0, "C11-R3", "no stores into the shared rule/AST from worker-reachable code", token.NoPos, "0 stores", itoa(nShared)+" stores")
+	c.Check(nShared == 0, R, "no stores into the shared rule/AST from worker-reachable code", token.NoPos, "0 stores", itoa(nShared)+" stores")
 	sort.Strings(names)
-	c.Check(len(reach) >= 100, "C11-R3", "worker-reachable functions enumerated", token.NoPos, itoa(len(reach))+" functions reachable from scanWorker and the Check methods", "call-graph closure from the workers is implausibly small ("+itoa(len(reach))+")")
-	c.Check(nStores == 0, "C11-R3", "no package-level stores in worker-reachable code", token.NoPos, "0 stores", itoa(nStores)+" stores")
-	c.Note("C11-R3 reachable set (%d): %s", len(names), strings.Join(names, " "))
+	c.Check(len(reach) >= 100, R, "worker-reachable functions enumerated", token.NoPos, itoa(len(reach))+" functions reachable from scanWorker and the Check methods", "call-graph closure from the workers is implausibly small ("+itoa(len(reach))+")")
+	c.Check(nStores == 0, R, "no package-level stores in worker-reachable code", token.NoPos, "0 stores", itoa(nStores)+" stores")
+	c.Note(R+" reachable set (%d): %s", len(names), strings.Join(names, " "))
 }
 
 // c11WorkerCount: checkRules starts exactly `workers` scan workers: the
